@@ -152,6 +152,9 @@ def run(
         "-workers",
         str(workers),
     ]
+    # a fixed fingerprint polynomial: TLC otherwise draws one per run, and with it the order in which BFS meets states - the
+    # shortest paths printed for a transition cover would differ from run to run
+    cmd += ["-fp", "0"]
     if not deadlock:
         cmd.append("-deadlock")  # -deadlock DISABLES deadlock checking
     if simulate:
